@@ -43,4 +43,43 @@ def gzRun (limit : Nat) : List (Str × List Ans) → GSt → GSt
 
 def total (l : List Str) : Nat := (l.map List.length).sum
 
+/-! ## the size options as the application gives them
+
+`HTTPServer(max_header_size=…, max_body_size=…)` / `IOStream(max_buffer_size=…)`: every option may be absent (`None`), and
+`0` is a legal value.  The code treats the three differently:
+
+* `HTTP1ConnectionParameters.__init__`: `self.max_header_size = max_header_size or 65536` (0 and `None` → 65536);
+* `BaseIOStream.__init__`: `self.max_buffer_size = max_buffer_size or 104857600` (0 and `None` → 100 MB);
+* `HTTP1Connection.__init__`: `self._max_body_size = params.max_body_size if params.max_body_size is not None else
+  stream.max_buffer_size` — only `None` falls back; a configured `0` stays `0` ("no request bodies accepted").
+-/
+
+/-- the options as passed by the application (`none` = argument not given / `None`) -/
+structure Raw where
+  maxHeaderSize : Option Nat := none
+  maxBodySize : Option Nat := none
+  maxBufferSize : Option Nat := none            -- of the stream the connection is served on
+  overrides : List (Option Nat) := []
+  noKeepAlive : Bool := false
+  deriving Repr, BEq, DecidableEq
+
+/-- Python `x or d` on an optional int: `None` and `0` are falsy -/
+def orDefault (x : Option Nat) (d : Nat) : Nat :=
+  match x with
+  | some (n + 1) => n + 1
+  | _ => d
+
+/-- Python `x if x is not None else d` -/
+def ifNotNone (x : Option Nat) (d : Nat) : Nat :=
+  match x with
+  | some n => n
+  | none => d
+
+/-- the limits the connection machine works with -/
+def Raw.cfg (r : Raw) : Cfg :=
+  { maxHeader := orDefault r.maxHeaderSize 65536
+    maxBody := ifNotNone r.maxBodySize (orDefault r.maxBufferSize 104857600)
+    overrides := r.overrides
+    noKeepAlive := r.noKeepAlive }
+
 end TornadoModel.C04
